@@ -11,6 +11,9 @@ Inductive case :=
 | CDec (m : list N) (impl : option (list N)).
     (* arbitrary text through base64.URLEncoding.DecodeString *)
 
+(* run-length notation used by the harness for big compressible scripts: pat repeated k times *)
+Definition rep (pat : list N) (k : N) : list N := N.iter k (fun acc => pat ++ acc) [].
+
 Definition check_case (c : case) : list N :=
   match c with
   | CEnc s d enc dec hyp =>
